@@ -23,6 +23,8 @@ func init() {
 		"vpBytes":        vpBytes,
 		"vpBytesCap":     vpBytesCap,
 		"vpStr":          vpStr,
+		"vpStrN":         vpStrN,
+		"vpBytesN":       vpBytesN,
 		"vpAssume":       vpAssume,
 		"vpAssert":       vpAssert,
 		"vpReach":        vpReach,
@@ -228,4 +230,42 @@ func vpBlocked(e *Engine, st *State, fn *ssa.Function, a []Value, s ssa.Instruct
 		return one(st, v)
 	}
 	return one(st, e.tm.False)
+}
+
+// vpStrN / vpBytesN: a string / byte slice of exactly n free bytes; a symbolic n is concretised
+// (one path per feasible value), which keeps every offset on the path concrete.
+func vpStrN(e *Engine, st *State, fn *ssa.Function, a []Value, s ssa.Instruction) []Outcome {
+	n := a[0].(*Term)
+	if c, ok := n.ConstVal(); ok {
+		name := e.tm.FreshName("in_str")
+		e.tm.DeclareArray(name)
+		st.tape = st.tape.push(TapeEntry{Kind: "str", Term: e.c64(c), Arr: name, Max: int(c)})
+		v := make([]*Term, c)
+		for i := range v {
+			v[i] = e.tm.Select(name, e.c64(uint64(i)))
+		}
+		return one(st, &StrV{arr: &ArrVec{v}, off: e.c64(0), len: e.c64(c), max: int(c)})
+	}
+	return e.forkOnLen(st, n, 300, func(st2 *State, k uint64) []Outcome {
+		return vpStrN(e, st2, fn, []Value{e.c64(k)}, s)
+	})
+}
+
+func vpBytesN(e *Engine, st *State, fn *ssa.Function, a []Value, s ssa.Instruction) []Outcome {
+	n := a[0].(*Term)
+	if c, ok := n.ConstVal(); ok {
+		name := e.tm.FreshName("in_bytes")
+		e.tm.DeclareArray(name)
+		st.tape = st.tape.push(TapeEntry{Kind: "bytes", Term: e.c64(c), Arr: name, Max: int(c)})
+		v := make([]*Term, c)
+		for i := range v {
+			v[i] = e.tm.Select(name, e.c64(uint64(i)))
+		}
+		o := e.newObject(name, types.Typ[types.Uint8])
+		st.mem.set(o, ArrExpr(&ArrVec{v}))
+		return one(st, &SliceV{obj: o, off: e.c64(0), len: e.c64(c), cap: e.c64(c), bytes: true, max: int(c)})
+	}
+	return e.forkOnLen(st, n, 300, func(st2 *State, k uint64) []Outcome {
+		return vpBytesN(e, st2, fn, []Value{e.c64(k)}, s)
+	})
 }
